@@ -15,10 +15,11 @@ package main
 // model together with the result of the real decoder stack on the frames.
 //
 // Case lines
-//   recv_file_verdict <proto> <size> <lines> <dec>   => A | N
+//   recv_file_verdict <proto> <size> <lines> <dec> <early>   => A<md5 of what reached the file> | N
 //     lines  D:<hex frame>[:<hex chunk>|:!] (protocol 1: what recvData made of it) / M:<hex digest> / K / O, joined by ","
 //     dec    protocol >= 2: hex of what the real decoder stack made of the frames in front of the
 //            first finish flag ("!" = error, "-" = empty)
+//     early  "-" or k: the observed schedule of the size check (Model/Protocol.v [early])
 //   send_file_verdict <proto> <size> <mine> <sent> <acks>   => 1 | 0
 //     sent   the lengths the sender expects acknowledged, joined by "."
 //     acks   F:<len>:<step> / I:<n> / G:<hex> / K / O, joined by ","
@@ -309,7 +310,7 @@ func (sc *c02sCase) run() {
 			lateForge = true
 		case 9:
 			muts = append(muts, "size-changed")
-			annSize = size + int64([]int{-1, 1, -int(minInt64v(size, 7)), 5, int(size)}[rng.Intn(5)])
+			annSize = size + int64([]int{-1, 1, -int(minInt64v(size, 7)), 5, int(size), -int(size)}[rng.Intn(6)])
 			if annSize < 0 {
 				annSize = 0
 			}
@@ -403,24 +404,38 @@ func (sc *c02sCase) run() {
 	} else {
 		dec = "-"
 	}
-	res := c02sB(accepted, "A", "N")
+	res := "N"
+	if accepted {
+		d := md5.Sum(written)
+		res = "A" + hx(d[:])
+	}
 	if rhung {
 		res = "H"
 	}
+	// the schedule of the receiving pipeline, as observed: the stream is not as long as announced and the
+	// file was accepted all the same = pipelineSendAck saw savedSteps = size before the saver's check
+	early := "-"
+	raced := g.pipeline() && decOK && accepted && int64(len(decoded)) != annSize
+	if raced {
+		early = fmt.Sprint(len(written))
+	}
 	sc.emits = append(sc.emits, c02sEmit{len(muts) > 0, "recv_file_verdict", res,
-		[]string{fmt.Sprint(g.proto), fmt.Sprint(annSize), c02sLineTokens(g, typed), dec}})
+		[]string{fmt.Sprint(g.proto), fmt.Sprint(annSize), c02sLineTokens(g, typed), dec, early}})
 	for _, mu := range muts {
 		sc.cnt = append(sc.cnt, "recv-mutation:"+mu)
 	}
 	if len(muts) == 0 {
 		sc.cnt = append(sc.cnt, "recv-mutation:none")
 	}
-	sc.cnt = append(sc.cnt, "recv-outcome:"+res+c02sB(timedOut, "(timeout)", ""))
+	sc.cnt = append(sc.cnt, "recv-outcome:"+res[:1]+c02sB(timedOut, "(timeout)", "")+c02sB(raced, "(size race won)", ""))
 	desc := fmt.Sprintf("mutations=%v announced=%d accepted=%v written=%d bytes", muts, annSize, accepted, len(written))
 	if rhung {
 		sc.violate("file-script:receiver-undecided", "the real receiver neither accepted nor refused a delivered line sequence within the deadline", desc)
 	}
-	if accepted {
+	if raced {
+		sc.violate("file-script:size-race", "the receiver (protocol >= 2) answered the MD5 line with SUCC although the stream is longer than the announced size: pipelineSendAck reports completion as soon as savedSteps equals the size, before pipelineSaveData's check at the end of the stream; the digest covers the whole stream, the file holds a prefix",
+			desc+fmt.Sprintf(" stream=%d bytes", len(decoded)))
+	} else if accepted {
 		if !forged && !bytes.Equal(written, sc.content) {
 			sc.violate("file-script:silent-corruption", "the receiver answered the MD5 line with SUCC although what it wrote differs from the source and no digest was forged", desc)
 		}
